@@ -204,6 +204,31 @@ def run_case(case):
                 data_ok = False
         events.append({"op": "Fetch", "F": [], "pushed": int(fetched), "failed": int(ffailed), "remote": {},
                        "cache": {c: listing(o.path) for c, o in fresh.items()}, "data_ok": bool(data_ok), "exc": exc or ""})
+        # ---- the root prefix's remote loses its objects (its index survives in the temporary directory); then ANOTHER index is
+        # pushed there: a directory never pushed before and a plain file - both listing contents the lost directory `a` listed
+        slot = case["smap"].get("", {})
+        if slot.get("remote", "-") != "-" and slot.get("cache", "-") != "-" and not case["F"]:
+            rname, cname = slot["remote"], slot["cache"]
+            rpath = remotes[rname].path
+            for d1 in os.listdir(rpath):
+                if len(d1) == 2:
+                    shutil.rmtree(os.path.join(rpath, d1))
+            remote2 = remote_odb(rname)       # (a new process)
+            cdata = canonical_dir_bytes({"k": MD5["a/sub/y"]})
+            coid = hashlib.md5(cdata).hexdigest() + ".dir"
+            caches[cname].add_bytes(coid, cdata)
+            idx3 = DataIndex()
+            idx3[("c",)] = DataIndexEntry(key=("c",), meta=Meta(isdir=True), hash_info=HashInfo("md5", coid))
+            idx3[("v",)] = DataIndexEntry(key=("v",), meta=Meta(), hash_info=HashInfo("md5", MD5["a/x"]))
+            idx3.storage_map.add_cache(ObjectStorage((), caches[cname]))
+            idx3.storage_map.add_remote(ObjectStorage((), remote2))
+            want = {coid, MD5["a/sub/y"], MD5["a/x"]}
+            try:
+                p3, f3 = push(collect([idx3], "remote", push=True))
+                have = {d1 + n for d1 in os.listdir(rpath) if len(d1) == 2 for n in os.listdir(os.path.join(rpath, d1))}
+                events.append({"op": "PushOther", "complete": want <= have, "pushed": int(p3), "failed": int(f3), "exc": ""})
+            except Exception as e:  # noqa: BLE001
+                events.append({"op": "PushOther", "complete": False, "pushed": -1, "failed": -1, "exc": type(e).__name__})
         return {"smap": case["smap"], "order": case["order"], "resolve": resolve, "groups": groups, "events": events, "case": case}
     finally:
         shutil.rmtree(root, ignore_errors=True)
